@@ -876,14 +876,24 @@ impl Model {
                                 ni.value = text;
                                 ni.tok = t;
                                 ni.carried.insert(t);
-                                ni.lower = ni.lower.min(t_inf(now, *exp));
-                                let mut ou = ni.own_upper.max(t_inf(now, *exp));
+                                // the expiration of an incr/decr request is for creating the counter;
+                                // an existing item keeps its own TTL, counted at most from this mutation
+                                // (as for append/prepend) - C05: no command prolongs an item's life
+                                // beyond its own TTL
+                                let mut ou = ni.own_upper;
                                 for tc in &ni.ttl_cands {
                                     ou = ou.max(t_inf(now, *tc));
                                 }
+                                if now >= it.lower {
+                                    // inside the item's expiry window the store may already count it
+                                    // as gone: the command then created a fresh counter, whose life
+                                    // is the request's expiration
+                                    ni.lower = ni.lower.min(t_inf(now, *exp));
+                                    ou = ou.max(t_inf(now, *exp));
+                                    ni.ttl_cands.insert(*exp);
+                                }
                                 ni.own_upper = ou;
                                 ni.upper = ou;
-                                ni.ttl_cands.insert(*exp);
                                 ni.stamp = now;
                                 push_stale(&mut ev.ki.stale, it.tok, Some(t));
                                 ev.ki.st = KeyState::Item(ni);
